@@ -18,8 +18,8 @@ ASSUMPTIONS = ["bar-shaped data (a quote at every timestep) as the property stat
 REQUIRED = ["C07:one-entry-per-decision", "C07:stamp-latest-event", "C07:interest-recorded", "C07:pre-nlv-replayed",
             "C07:post-nlv-replayed", "C07:trade-quotes-as-logged", "C07:commission", "C07:holdings-recorded", "C07:weights-recorded",
             "C07:reward", "C07:times-strictly-increasing", "C07:nlv-series", "C07:transaction-costs-series",
-            "C07:simple-returns-compound"]
-REQUIRED_CATS = ["scenario:cost-ruin", "reward:RewardPnL", "reward:RewardLogReturn", "reward:LogReturn", "reward:RewardSimpleReturn", "chain",
+            "C07:simple-returns-compound", "C07:xy-reward"]
+REQUIRED_CATS = ["xy-reward-clip-binds", "scenario:cost-ruin", "reward:RewardPnL", "reward:RewardLogReturn", "reward:LogReturn", "reward:RewardSimpleReturn", "chain",
                  "rate-path", "late-fold"]
 REQUIRED_HITS = ["Broker.rebalance"]
 TECHNIQUE = "runtime monitoring: offline replay of the recorded track record against the observer's quote log with an independent ledger"
@@ -83,9 +83,58 @@ def cost_ruin(ctx):
     ctx.sample = {"scenario": "cost-ruin", "cash0": cash0, "fixed_fee": fee, "unrecorded_executed_decisions": unrecorded}
 
 
+def xy_reward(ctx):
+    """The tabular front-end states its reward as: log-return / scale, clipped to +-reward_clipping,
+    negative values multiplied by (1 + risk_aversion); scale = mean over assets of the standard
+    deviation of daily log-returns up to transformer_end."""
+    import math
+    import numpy as np
+    import pandas as pd
+    from tradingenv.env import TradingEnvXY
+    r, rng = ctx.rng, ctx.nrng
+    n = r.randint(60, 120)
+    dates = pd.date_range("2021-03-01", periods=n, freq="B")
+    rets = rng.normal(0, 0.01, [n, 2])
+    for _ in range(r.randint(3, 8)):          # a few large moves so that the clip binds
+        rets[r.randrange(n // 2, n), r.randrange(2)] = r.choice([-1, 1]) * r.uniform(0.05, 0.12)
+    Y = pd.DataFrame(100 * np.exp(np.cumsum(rets, 0)), dates, columns=["a", "b"])
+    X = pd.DataFrame(rng.normal(0, 1, [n, 2]), dates)
+    rclip = r.choice([0.5, 1.5, 2.0, 3.0])
+    fclip = r.choice([1.0, 5.0])
+    ra = r.choice([0.0, 0.25])
+    kend = r.randint(n // 3, n - 1)
+    env = TradingEnvXY(X, Y, transformer=r.choice([None, "z-score"]), transformer_end=dates[kend], clip=fclip,
+                       reward_clipping=rclip, risk_aversion=ra, spread=0.0, fee=0.0, margin=0.0, steps_delay=0,
+                       max_long=1.0, max_short=-1.0)
+    scale = float(np.log(Y.loc[:dates[kend]]).diff().std().mean())
+    env.reset()
+    done = bool(env._done)
+    k = 0
+    bound = 0
+    while not done and k < n + 2:
+        a = np.array([r.uniform(0.3, 1.0), r.uniform(-1.0, -0.3)]) * r.choice([-1, 1])
+        o, rew, done, info = env.step(a)
+        k += 1
+        pre = env.broker.track_record[-1].context_pre.nlv
+        now = env.broker.net_liquidation_value(False)
+        v = math.log(now / pre) / scale
+        if abs(v) > rclip:
+            bound += 1
+        v = max(-rclip, min(rclip, v))
+        v = v * (1 + ra) if v < 0 else v
+        ctx.check("C07:xy-reward", abs(v - rew) <= 1e-9 * max(1.0, abs(v)), reward=rew, want=v, reward_clipping=rclip,
+                  feature_clip=fclip, risk_aversion=ra, step=k)
+    ctx.cat("scenario:xy-reward", "xy-reward-clip-binds" if bound else "xy-reward-clip-idle")
+    ctx.nontrivial = bound > 0
+    ctx.sample = {"scenario": "xy-reward", "reward_clipping": rclip, "feature_clip": fclip, "risk_aversion": ra, "steps": k,
+                  "steps_where_clip_binds": bound}
+
+
 def case(ctx, i, tier):
     if i % 40 == 39:
         return cost_ruin(ctx)
+    if i % 40 == 19:
+        return xy_reward(ctx)
     chain = i % 8 == 7
     discrete = i % 8 == 3
     cfg, outs = epl.ledger_episode(ctx, {"C07"}, chain=chain, discrete=discrete)
